@@ -34,10 +34,10 @@ def main():
         sp, sf = counts(out)
         compiled = "error: could not compile" not in out
         shutil.copy(os.path.join(sd, "demo.rs"), os.path.join(WT, "minicbor-tests/tests/seed_demo.rs"))
-        rc1, out1 = sh("cargo test -p minicbor-tests --features std --test seed_demo --offline 2>&1")
+        rc1, out1 = sh("cargo test -p minicbor-tests --features std,derive --test seed_demo --offline 2>&1")
         p1, f1 = counts(out1)
         sh("git checkout -q -- .")      # the demo file is untracked and stays
-        rc2, out2 = sh("cargo test -p minicbor-tests --features std --test seed_demo --offline 2>&1")
+        rc2, out2 = sh("cargo test -p minicbor-tests --features std,derive --test seed_demo --offline 2>&1")
         p2, f2 = counts(out2)
         ok = compiled and sf == 0 and sp >= 54 and rc1 != 0 and rc2 == 0
         print(f"{P}/{k}: suite {sp} passed {sf} failed; demo with patch rc={rc1} ({p1} passed, {f1} failed); without rc={rc2} ({p2} passed, {f2} failed) -> {'CONFIRMED' if ok else 'NOT CONFIRMED'}", flush=True)
@@ -50,7 +50,7 @@ def main():
             meta["confirmed_by_lead"] = {
                 "worktree": "scratch git worktree of /repo at its HEAD (removed afterwards)",
                 "ran": [f"git apply patch.diff; cargo test --workspace --no-fail-fast --offline -> {sp} passed, {sf} failed",
-                        f"demo.rs copied to minicbor-tests/tests/seed_demo.rs; cargo test -p minicbor-tests --features std --test seed_demo --offline with the patch -> exit {rc1} ({p1} passed, {f1} failed)",
+                        f"demo.rs copied to minicbor-tests/tests/seed_demo.rs; cargo test -p minicbor-tests --features std,derive --test seed_demo --offline with the patch -> exit {rc1} ({p1} passed, {f1} failed)",
                         f"same command after `git checkout -- .` (patch removed) -> exit {rc2} ({p2} passed, {f2} failed)"]}
             json.dump(meta, open(os.path.join(dst, "meta.json"), "w"), indent=1)
     sh("git checkout -q -- . && git clean -fdq")
